@@ -1343,3 +1343,321 @@ Proof.
     unfold NoAvailHeap. sim. rewrite Hh. intros c1 e Hc. rewrite nth_error_snoc in Hc.
     destruct (Nat.eqb c1 (length (heap s))); [inv Hc; exact Hst|]. eauto.
 Qed.
+
+(* ------------------------------------------------------------------------ *)
+(* One operation                                                            *)
+(* ------------------------------------------------------------------------ *)
+Definition TimerKeeps (s s' : me) : Prop :=
+  0 <= recov s -> forall k e, Mapped s k e -> e_st e = Available ->
+  exists e', Mapped s' k e' /\ e_st e' = Available.
+
+Record StepOK (s : me) (o : op) (s' : me) (outs : list out) : Prop := mkSO {
+  so_inv : Inv s';
+  so_recov : recov s' = recov s;
+  so_delay : delay s' = delay s;
+  so_ct : CurTrans (is_input o) (cur s) s';
+  so_keys : match o with
+            | OpSet (x :: r) => forall k, In k (keys s') <-> In k (x :: r)
+            | _ => keys s' = keys s
+            end;
+  so_out : match o with
+           | OpSet [] => outs = [OErr] /\ s' = s
+           | OpSet _ => noerr outs
+           | _ => True
+           end;
+  so_avail : match o with OpAvail id b => AvailFacts s id b s' outs | _ => True end;
+  so_timer : match o with
+             | OpBegin _ | OpEnd _ | OpAdvance _ => TimerKeeps s s'
+             | _ => True
+             end
+}.
+
+Lemma CurTrans_weaken inp c0 s : CurTrans true c0 s -> CurTrans inp c0 s.
+Proof. intros [A B C D E]. constructor; auto. intros _. apply E. reflexivity. Qed.
+
+Lemma has_switch_app s s' extra :
+  timers s' = timers s ++ extra -> has_switch s -> has_switch s'.
+Proof.
+  intros Ht [k [t [H1 H2]]]. exists k, t. split; auto. rewrite Ht.
+  rewrite nth_error_app1; auto. eapply nth_error_Some_lt; eauto.
+Qed.
+
+Lemma Jinv_same s s' :
+  heap s' = heap s -> emap s' = emap s -> cur s' = cur s -> fut s' = fut s -> delay s' = delay s ->
+  (has_switch s -> has_switch s') -> Jinv s -> Jinv s'.
+Proof.
+  intros Hh Hm Hc Hf Hd Hs J ta. destruct (same_eps s s' Hh Hm) as [_ [TA _]].
+  rewrite TA, (hold_current_same s s' Hh Hm Hc), Hc, Hf, Hd. intros T.
+  destruct (J ta T) as [X|[X|[X [Y Z]]]]; auto.
+  right; right. auto.
+Qed.
+
+Lemma Inv_same s s' :
+  heap s' = heap s -> emap s' = emap s -> cur s' = cur s -> fut s' = fut s -> delay s' = delay s ->
+  TH s' None -> (has_switch s -> has_switch s') -> Inv s -> Inv s'.
+Proof.
+  intros Hh Hm Hc Hf Hd T Hs [W P _ C U J]. constructor; auto.
+  - eapply WFs_same; eauto.
+  - eapply PrioInj_same; eauto.
+  - eapply CurMapped_same; eauto.
+  - eapply Uinv_same; eauto.
+  - eapply Jinv_same; eauto.
+Qed.
+
+Lemma TimerKeeps_same s s' : heap s' = heap s -> emap s' = emap s -> TimerKeeps s s'.
+Proof.
+  intros Hh Hm _ k e M A. destruct (same_eps s s' Hh Hm) as [_ [_ [_ [_ E]]]].
+  exists e. split; auto. apply E. exact M.
+Qed.
+
+Lemma finish_mUC s1 s' o2 :
+  WFs s1 -> PrioInj s1 -> TH s1 None -> emap s1 <> [] ->
+  maybeUpdateCurrent s1 = (s', o2) ->
+  Inv s' /\ CurTrans true (cur s1) s' /\ heap s' = heap s1 /\ emap s' = emap s1 /\
+  recov s' = recov s1 /\ delay s' = delay s1 /\ now s' = now s1 /\ noerr o2 /\
+  exists extra, timers s' = timers s1 ++ extra.
+Proof.
+  intros W P T Hne E. apply mUC_cases in E.
+  destruct (mUC_post _ _ _ W Hne E) as [Hh [Hm [Hr [Hd [Hn [No [Ht [C [U [J CT]]]]]]]]]].
+  split.
+  { constructor; auto.
+    - eapply WFs_same; eauto.
+    - eapply PrioInj_same; eauto.
+    - destruct Ht as [Ht|Ht].
+      + apply (TH_irrel s1); auto.
+      + apply (TH_irrel (set_timers s1 (timers s1 ++ [mkTimer (now s1 + delay s1) TSwitch Pending]))); auto.
+        apply TH_new_switch; auto. }
+  repeat (split; [assumption|]).
+  destruct Ht as [Ht|Ht]; [exists []; rewrite app_nil_r|eexists]; exact Ht.
+Qed.
+
+Lemma AvailFacts_transfer s id b s1 o1 s' o2 extra :
+  AvailFacts s id b s1 o1 ->
+  heap s' = heap s1 -> emap s' = emap s1 -> now s' = now s1 -> timers s' = timers s1 ++ extra ->
+  AvailFacts s id b s' (o1 ++ o2).
+Proof.
+  intros A Hh Hm Hn Ht. destruct (same_eps s1 s' Hh Hm) as [_ [_ [_ [EP _]]]].
+  assert (App : forall k t, nth_error (timers s1) k = Some t -> nth_error (timers s') k = Some t).
+  { intros k t H. rewrite Ht, nth_error_app1; auto. eapply nth_error_Some_lt; eauto. }
+  unfold AvailFacts in *. rewrite EP. destruct b.
+  - intros ea Ea. destruct (A ea Ea) as [A1 A2]. split; auto.
+    intros k Hk. destruct (A2 k Hk) as [t [H1 H2]]. exists t. auto.
+  - destruct (ep_of_id s id) as [eb|]; auto.
+    destruct A as [ea [Ea A]]. exists ea. split; auto.
+    destruct (availb eb).
+    + destruct (recov s =? 0); auto.
+      destruct A as [A1 [k [t [B1 [B2 [B3 [B4 [B5 B6]]]]]]]]. split; auto.
+      exists k, t. rewrite Hn. repeat (split; auto).
+      rewrite existsb_app, B6. reflexivity.
+    + destruct A as [A1 A2]. split; auto.
+      intros k Hk. destruct (A2 k Hk) as [t [H1 H2]]. exists t. auto.
+Qed.
+
+Lemma StepOK_stutter s o s' outs :
+  Inv s -> Inv s' -> heap s' = heap s -> emap s' = emap s -> cur s' = cur s ->
+  recov s' = recov s -> delay s' = delay s ->
+  match o with
+  | OpSet [] => outs = [OErr] /\ s' = s
+  | OpSet _ | OpAvail _ _ => False
+  | _ => True
+  end ->
+  StepOK s o s' outs.
+Proof.
+  intros I I' Hh Hm Hc Hr Hd Ho. constructor; auto.
+  - rewrite <- Hc. apply CurTrans_stutter; apply I'.
+  - unfold keys. destruct o as [| [|x r] | | |]; try rewrite Hm; try reflexivity. destruct Ho.
+  - destruct o as [| [|x r] | | |]; auto. destruct Ho.
+  - destruct o; auto. destruct Ho.
+  - destruct o; auto; apply TimerKeeps_same; auto.
+Qed.
+
+Lemma can_end_Some s k : can_end s k = true ->
+  exists tk, nth_error (timers s) k = Some tk /\ t_st tk = Firing.
+Proof.
+  unfold can_end. destruct (nth_error (timers s) k) as [tk|]; [|discriminate].
+  destruct (t_st tk) eqn:St; try discriminate. eauto.
+Qed.
+
+Lemma has_switch_upd s k st :
+  (forall tk, nth_error (timers s) k = Some tk -> t_kind tk = TSwitch -> st = Pending \/ st = Firing) ->
+  has_switch s ->
+  has_switch (set_timers s (upd_nth k (fun t => with_tst t st) (timers s))).
+Proof.
+  intros Hk [j [t [H1 [H2 H3]]]]. unfold has_switch; sim.
+  destruct (Nat.eqb_spec k j) as [<-|Hne].
+  - exists k, (with_tst t st). rewrite nth_error_upd_nth, Nat.eqb_refl, H1. cbn.
+    split; [reflexivity|]. split; [exact H2|]. exact (Hk t H1 H2).
+  - exists j, t. rewrite nth_error_upd_nth_neq by exact Hne. auto.
+Qed.
+
+Lemma step_ok s o s' outs : Inv s -> step s o = (s', outs) -> StepOK s o s' outs.
+Proof.
+  intros I. pose proof I as [W P T C U J].
+  assert (Hne : emap s <> []) by (eapply emap_nonempty_of_key; apply Inv_cur_member; exact I).
+  destruct o as [id b|ids|dt|k|k]; cbn [step].
+  - (* OpAvail *)
+    unfold SetEndpointAvailability.
+    destruct (setEndpointAvailability s id b) as [s1 o1] eqn:E1.
+    destruct (maybeUpdateCurrent s1) as [s2 o2] eqn:E2. intros E; inv E.
+    destruct (seA_spec _ _ _ _ _ W T E1) as [Hm [Hc [Hf [Hr [Hd [Hn [Hle [T1 [No1 AF]]]]]]]]].
+    assert (W1 : WFs s1) by (eapply WFs_heap_le; eauto).
+    assert (P1 : PrioInj s1) by (eapply PrioInj_heap_le; eauto).
+    assert (Hne1 : emap s1 <> []) by (rewrite Hm; exact Hne).
+    destruct (finish_mUC _ _ _ W1 P1 T1 Hne1 E2) as
+      [I' [CT [Hh2 [Hm2 [Hr2 [Hd2 [Hn2 [No2 [extra Ht2]]]]]]]]].
+    constructor; auto; try congruence.
+    + rewrite <- Hc. exact CT.
+    + unfold keys. congruence.
+    + eapply AvailFacts_transfer; eauto.
+  - (* OpSet *)
+    unfold SetEndpoints. destruct ids as [|x r].
+    { intros E; inv E. apply StepOK_stutter; auto. }
+    set (ids := x :: r).
+    set (s0 := set_emap s (filter (fun kc => memN (fst kc) ids) (emap s))).
+    destruct (add_or_update s0 ids 0) as [s2 o2] eqn:E2.
+    destruct (maybeUpdateCurrent s2) as [s3 o3] eqn:E3. intros E; inv E.
+    assert (K0 : forall k, In k (keys s0) -> In k ids).
+    { intros k Hk. unfold keys, s0 in Hk; sim. apply in_map_iff in Hk.
+      destruct Hk as [[k' c] [<- Hin]]. apply filter_In in Hin. destruct Hin as [_ Hin].
+      apply memN_In. exact Hin. }
+    assert (W0 : WFs s0).
+    { constructor; unfold keys, s0; sim.
+      - apply filter_keys_NoDup. apply W.
+      - intros k c Hin. apply filter_In in Hin. destruct Hin as [Hin _]. apply (wf_cells _ W); auto. }
+    assert (T0 : TH s0 None) by (apply (TH_irrel s); auto).
+    assert (Q0 : Q s0 ids 0).
+    { split.
+      - intros k e M Hn. exfalso. apply Hn, K0. eapply Mapped_key; eauto.
+      - intros k1 e1 k2 e2 M1 _ Hn. exfalso. apply Hn, K0. eapply Mapped_key; eauto. }
+    destruct (add_or_update_ok _ _ _ _ _ W0 T0 Q0 E2) as [W2 T2 P2 K2 C2 R2 D2 N2 No2].
+    assert (Hne2 : emap s2 <> []).
+    { apply (emap_nonempty_of_key s2 x). apply K2. right. left; reflexivity. }
+    destruct (finish_mUC _ _ _ W2 P2 T2 Hne2 E3) as
+      [I' [CT [Hh3 [Hm3 [Hr3 [Hd3 [Hn3 [No3 [extra Ht3]]]]]]]]].
+    constructor; auto; try (unfold s0 in *; sim; congruence).
+    + replace (cur s) with (cur s2) by (rewrite C2; reflexivity). exact CT.
+    + intros k. unfold keys. rewrite Hm3. fold (keys s2). rewrite K2. fold ids.
+      split; [intros [H|H]; auto|auto].
+    + apply noerr_app; auto.
+  - (* OpAdvance *)
+    destruct (Z.leb_spec 0 dt) as [Hdt|Hdt]; intros E; inv E.
+    + apply StepOK_stutter; auto.
+      apply (Inv_same s); auto. apply TH_advance; auto.
+    + apply StepOK_stutter; auto.
+  - (* OpBegin *)
+    destruct (can_begin s k) eqn:CB; intros E; inv E.
+    + apply StepOK_stutter; auto.
+      apply (Inv_same s); auto.
+      * apply TH_begin; auto.
+      * apply has_switch_upd. auto.
+    + apply StepOK_stutter; auto.
+  - (* OpEnd *)
+    destruct (can_end s k) eqn:CE.
+    2:{ intros E; inv E. apply StepOK_stutter; auto. }
+    destruct (can_end_Some _ _ CE) as [tk [Ek Stk]]. rewrite Ek.
+    set (s1 := set_timers s (upd_nth k (fun t => with_tst t Done) (timers s))).
+    pose proof (TH_end s k tk Ek Stk T) as TE. cbn zeta in TE. fold s1 in TE.
+    destruct (t_kind tk) as [c stamp|] eqn:Kd.
+    + (* recovery timer *)
+      destruct TE as [T1 T1'].
+      assert (Hsw : has_switch s -> has_switch s1).
+      { intros [j [t [H1 [H2 H3]]]]. exists j, t. unfold s1; sim.
+        rewrite nth_error_upd_nth_neq; auto. intros <-. congruence. }
+      assert (I1 : TH s1 None -> Inv s1).
+      { intros T1n. apply (Inv_same s); auto. }
+      unfold run_recovery. change (get_ep s1 c) with (get_ep s c).
+      destruct (get_ep s c) as [e|] eqn:G.
+      2:{ exfalso. destruct (th_K _ _ T k tk Ek c stamp Kd (or_intror Stk)) as [e [He _]].
+          unfold get_ep in G. congruence. }
+      destruct (Z.eqb_spec (e_last e) stamp) as [Hst|Hst]; cbn [negb].
+      2:{ intros E; inv E. apply StepOK_stutter; auto. apply I1. exact (T1' e G Hst). }
+      destruct (setState_eq s1 c e Unavailable G) as [o1 [Eq No1]]. rewrite Eq.
+      set (s2 := setState_res s1 c e Unavailable).
+      destruct (maybeUpdateCurrent s2) as [s3 o3] eqn:E3. intros E; injection E as <- <-.
+      assert (T2 : TH s2 None) by exact (TH_setState s1 (Some c) c e Unavailable T1 (or_intror eq_refl) G).
+      assert (Hle : heap_le (heap s) (heap s2)).
+      { unfold s2, setState_res, s1; sim. apply heap_le_upd. intros; split; reflexivity. }
+      assert (W2 : WFs s2) by (apply (WFs_heap_le s); auto).
+      assert (P2 : PrioInj s2) by (apply (PrioInj_heap_le s); auto).
+      destruct (finish_mUC _ _ _ W2 P2 T2 Hne E3) as
+        [I' [CT [Hh3 [Hm3 [Hr3 [Hd3 [Hn3 [No3 [extra Ht3]]]]]]]]].
+      constructor; auto.
+      * apply CurTrans_weaken. exact CT.
+      * unfold keys. rewrite Hm3. reflexivity.
+      * intros Hr key x [cx [Hin Hx]] Av.
+        destruct (th_K _ _ T k tk Ek c stamp Kd (or_intror Stk)) as [e' [He' [_ K2]]].
+        destruct (K2 Hr) as [_ [_ K3]]. unfold get_ep in G.
+        assert (e' = e) by congruence. subst e'. specialize (K3 Hst).
+        exists x. split; auto. exists cx. rewrite Hm3, Hh3. split; auto.
+        unfold s2, setState_res, s1; sim. rewrite nth_error_upd_nth_neq; auto.
+        intros <-. congruence.
+    + (* switch timer *)
+      destruct (run_switch s1) as [s2 o2] eqn:E2. intros E; inv E.
+      destruct (run_switch_cases _ _ _ E2) as [RS ->].
+      assert (Base : Jinv s1 -> StepOK s (OpEnd k) s1 []).
+      { intros J1. apply StepOK_stutter; auto.
+        constructor; [apply (WFs_same s); auto|apply (PrioInj_same s); auto|exact TE|
+                      apply (CurMapped_same s); auto|apply (Uinv_same s); auto|exact J1]. }
+      inversion RS as [H|H TA|ta H TA F|ta H TA F]; subst.
+      * apply Base. intros ta' _. left. exact H.
+      * apply Base. intros ta' TA'. congruence.
+      * apply Base. intros ta' TA'. assert (ta' = ta) by congruence. subst ta'.
+        destruct (J ta TA) as [X|[X|[_ [X _]]]].
+        { left. exact X. }
+        { right; left. exact X. }
+        { exfalso. apply F. symmetry. exact X. }
+      * change (topAvail s = Some ta) in TA. change (hold_current s = false) in H.
+        destruct (topAvail_ep s ta W TA) as [Eta Ata].
+        assert (I' : Inv (set_cur s1 (e_id ta))).
+        { constructor; [apply (WFs_same s); auto|apply (PrioInj_same s); auto|
+                        apply (TH_irrel s1); auto| | | ].
+          - exists ta. exact Eta.
+          - intros ce Ece Uce. change (ep_of_id s (e_id ta) = Some ce) in Ece. congruence.
+          - intros ta' TA'. right; left. change (topAvail s = Some ta') in TA'.
+            change (topAvail s = Some ta) in TA. cbn. congruence. }
+        constructor; auto.
+        { constructor; cbn [cur set_cur].
+          - intros H'. change (hold_current s = true) in H'. congruence.
+          - intros T'. change (topAvail s = None) in T'. congruence.
+          - intros ta' T'. change (topAvail s = Some ta') in T'. right. congruence.
+          - intros _. change (decide_st (set_cur s1 (e_id ta)) (cur s)) with (decide_st s (cur s)).
+            rewrite decide_st_eq, <- hold_current_at. rewrite H, TA. reflexivity.
+          - discriminate. }
+        { apply TimerKeeps_same; reflexivity. }
+Qed.
+
+(* ------------------------------------------------------------------------ *)
+(* The state right after construction                                       *)
+(* ------------------------------------------------------------------------ *)
+Lemma New_Inv ids r d s0 outs0 :
+  NewMultiEndpoint ids r d = Some (s0, outs0) ->
+  Inv s0 /\ recov s0 = r /\ delay s0 = d /\ (forall k, In k (keys s0) <-> In k ids) /\
+  match ids with first :: _ => cur s0 = first | [] => False end.
+Proof.
+  unfold NewMultiEndpoint. destruct ids as [|first rest]; [discriminate|].
+  set (ids := first :: rest). set (si := mkMe [] [] r d first 0%N [] 0).
+  intros E. assert (E' : new_all si ids 0 = (s0, outs0)) by (injection E as E; exact E).
+  clear E. rename E' into E.
+  assert (Wi : WFs si).
+  { constructor; cbn; [constructor|]. intros k c []. }
+  assert (Ti : TH si None).
+  { constructor; cbn; try lia; intros c e H; destruct c; discriminate. }
+  assert (Qi : Q si ids 0).
+  { split.
+    - intros k e [c [[] _]].
+    - intros k1 e1 k2 e2 [c [[] _]]. }
+  assert (NAi : NoAvailHeap si) by (intros c e H; destruct c; discriminate).
+  destruct (new_all_ok ids si 0 s0 outs0 Wi Ti Qi E) as [W T P K C R D N No].
+  pose proof (new_all_noavail ids si 0 s0 outs0 NAi E) as NA.
+  assert (K' : forall k, In k (keys s0) <-> In k ids).
+  { intros k. rewrite K. cbn. tauto. }
+  assert (TA : topAvail s0 = None).
+  { rewrite topAvail_top. apply none_top. intros y Hy. apply In_mapped_eps in Hy.
+    destruct Hy as [k [c [_ Hc]]]. apply status_eqb_neq. exact (NA _ _ Hc). }
+  split; [|split; [exact R|split; [exact D|split; [exact K'|exact C]]]].
+  constructor; auto.
+  - assert (Hin : In (cur s0) (keys s0)) by (rewrite C; apply K'; left; reflexivity).
+    destruct (key_Mapped _ _ W Hin) as [e He]. exists e. apply ep_of_id_Mapped; auto.
+  - intros ce _ _. exact TA.
+  - intros ta H. congruence.
+Qed.
